@@ -19,9 +19,10 @@ Init == z = [k |-> "start"]
 OpenVar == {"openMfs0", "openMfs3", "openMfs4", "openMfs6", "openMfs7", "openMfs8", "openMfs100", "openMfs511", "openChmax0", "openIdle1"}
 \* floods: hundreds of legal frames written back to back (echo requests, dispositions for unknown deliveries, session flows, empty frames) against
 \* an endpoint whose internal channels hold a single frame ("tight": buffer_size 1 on connection and session): it must keep answering and stay usable
-Floods == {"floodEcho", "floodEchoDisp", "floodSessFlow"}
+Floods == {"floodEcho", "floodEchoDisp", "floodEchoDisp1", "floodEchoDisp2", "floodSessFlow"}
 Next == z.k = "start" /\ \/ \E st \in States, h \in Raw \cup Proto : z' = [k |-> "case", st |-> st, h |-> h]
-                         \/ \E h \in Floods : z' = [k |-> "case", st |-> "tight", h |-> h]
+                         \* (which task the runtime picks when several are ready is random: every flood is run a few times)
+                         \/ \E h \in Floods, n \in 1..3 : z' = [k |-> "case", st |-> "tight", h |-> h, n |-> n]
                          \/ \E h \in OpenVar \cup Raw : z' = [k |-> "case", st |-> "header", h |-> h]
 Spec == Init /\ [][Next]_z
 
@@ -61,7 +62,9 @@ RECURSIVE Rep(_, _)
 Rep(n, seq) == IF n = 0 THEN <<>> ELSE seq \o Rep(n - 1, seq)
 Hostile(h) ==
   CASE h = "floodEcho" -> Rep(400, <<EchoFlow>>)
-    [] h = "floodEchoDisp" -> Rep(300, <<EchoFlow, EchoFlow, EchoFlow, DispUnk>>)
+    [] h = "floodEchoDisp" -> Rep(1200, <<EchoFlow, EchoFlow, EchoFlow, DispUnk>>)
+    [] h = "floodEchoDisp1" -> Rep(1200, <<EchoFlow, DispUnk>>)
+    [] h = "floodEchoDisp2" -> Rep(1200, <<EchoFlow, EchoFlow, DispUnk, DispUnk>>)
     [] h = "floodSessFlow" -> Rep(300, <<SessEcho, DispUnk>>)
     [] h = "size0" -> <<[e |-> "PRaw", tag |-> h, b |-> <<0,0,0,0, 2,0,0,0>>]>>
     [] h = "size3" -> <<[e |-> "PRaw", tag |-> h, b |-> <<0,0,0,3, 2,0,0,0>>]>>
@@ -116,5 +119,5 @@ Hostile(h) ==
 Probe(st) == (IF st \in {"sender", "receiver", "midxfer", "tight"} THEN <<[e |-> "ASend", l |-> "L1", m |-> 1, len |-> 20, settled |-> TRUE]>> ELSE <<>>)
              \o (IF st = "header" THEN <<[e |-> "ABegin", s |-> "s1", cfg |-> [noi |-> 1000, iw |-> 3, ow |-> 100]]>> ELSE <<>>)
              \o (IF st = "closing" THEN <<>> ELSE <<[e |-> "AClose", err |-> ""]>>) \o <<PF("close", 0, [err |-> ""]), [e |-> "PEof"]>>
-Emit == z.k = "start" \/ PrintT(<<"SCRIPT", ToJson([side |-> Side, id |-> <<Side, z.st, z.h>>, final_ms |-> 60000, ev |-> Prefix(z.st) \o Hostile(z.h) \o Probe(z.st)])>>)
+Emit == z.k = "start" \/ PrintT(<<"SCRIPT", ToJson([side |-> Side, id |-> <<Side, z.st, z.h>> \o (IF "n" \in DOMAIN z THEN <<z.n>> ELSE <<>>), final_ms |-> 60000, ev |-> Prefix(z.st) \o Hostile(z.h) \o Probe(z.st)])>>)
 =============================================================================
